@@ -29,7 +29,11 @@ def handle (op : String) (inp go : Sexp) : Option Reply :=
         | _ => .list [.atom "panic"]
       let v := match go with
         | .list [.atom "ok", .list cs, _, _] =>
-            if cs.length % 5 == 0 then "ok" else "FAIL track is not a whole number of 5-dimensional fixes"
+            -- one fix per B record at most: a line (whatever its length) is one record
+            let nB := ((splitLines bs).filter fun l => l.head? == some 66).length
+            if cs.length % 5 != 0 then "FAIL track is not a whole number of 5-dimensional fixes"
+            else if cs.length / 5 > nB then s!"FAIL {cs.length / 5} fixes decoded from {nB} B records"
+            else "ok"
         | _ => "FAIL IGC decoding panicked"
       pure ⟨m.toStr, v⟩
   | "C19.rt", .list fixes => do
